@@ -93,7 +93,9 @@ def tone_events(chk):
                 noise = 1e-3 * (rng.randn(N) + (1j * rng.randn(N) if dt == 'complex' else 0))
                 x = (np.exp(2j * np.pi * k * n / nfft) if dt == 'complex' else np.cos(2 * np.pi * k * n / nfft + 0.3)) + noise
                 for name in zoo.CLASSES:
-                    over = {'order': 4, 'IP': 6, 'NSIG': 1 if dt == 'complex' else 2, 'P': 2, 'Q': 2, 'armalag': 10, 'corrlag': N - 1,
+                    over = {'order': 4, 'IP': 6, 'NSIG': 1 if dt == 'complex' else 2, 'P': 2, 'Q': 2, 'armalag': 10,
+                            # (the correlogram needs NFFT >= 2 lag + 1 to hold its lag sequence: C05's admissibility)
+                            'corrlag': min(N - 1, (nfft - 1) // 2),
                             'window': 'rectangular'}
                     ev = {'ev': 'tone', 'cls': name, 'dt': dt, 'N': N, 'nfft': nfft, 'k': int(k), 'nw10': 25}
                     ok, obj = call_guard(zoo.build, name, x.copy(), nfft, sampling, False, **over)
